@@ -173,6 +173,17 @@ def programs():
     for ename, ety, tname in (("rc", "std::rc::Rc<u8>", "Send"), ("rc", "std::rc::Rc<u8>", "Sync"), ("mutex_guard", "std::sync::MutexGuard<'static, u8>", "Send"),
                               ("cell", "std::cell::Cell<u8>", "Sync"), ("raw_ptr", "*const u8", "Send"), ("raw_ptr", "*const u8", "Sync")):
         add(f"auto_drain_{ename}_{tname.lower()}", "auto-trait", f"fn need<X: {tname}>() {{}}\nfn f() {{ need::<Dr<'static, {ety}>>(); }}\n", "reject", variants=("cb", "vd"))
+    # 4c. drop check: the buffer's destructor runs the elements' destructors, so borrowed data held by an element with a
+    # destructor must strictly outlive the buffer (a `#[may_dangle]` without an owning marker would accept this)
+    loud = "struct Loud<'a>(&'a String);\nimpl Drop for Loud<'_> { fn drop(&mut self) { let _ = self.0.len(); } }\n"
+    add("dropck_owner_declared_after_buffer", "drop-check",
+        loud + "fn f() {\n    let mut b: Buf<Loud<'_>> = Buf::new();\n    let owner = String::from(\"x\");\n    b.push_back(Loud(&owner));\n}\n", "reject",
+        twin="dropck_owner_declared_before_buffer")
+    add("dropck_owner_declared_before_buffer", "drop-check",
+        loud + "fn f() {\n    let owner = String::from(\"x\");\n    let mut b: Buf<Loud<'_>> = Buf::new();\n    b.push_back(Loud(&owner));\n}\n", "accept")
+    add("dropck_into_iter_owner_declared_after", "drop-check",
+        loud + "fn f() {\n    let mut b: Buf<Loud<'_>> = Buf::new();\n    let mut it = b.into_iter();\n    let owner = String::from(\"x\");\n    let mut c: Buf<Loud<'_>> = Buf::new();\n    c.push_back(Loud(&owner));\n    it = c.into_iter();\n}\n", "reject",
+        twin="dropck_owner_declared_before_buffer")
     # 6. bound-free impls
     add("impl_iter_clone_without_t_clone", "bound-free", "struct NoTraits;\nfn f(it: It<'_, NoTraits>) -> It<'_, NoTraits> { it.clone() }\n", "accept")
     add("impl_iter_default_without_bounds", "bound-free", "struct NoTraits;\nfn f<'a>() -> It<'a, NoTraits> { Default::default() }\n", "accept")
@@ -189,11 +200,12 @@ def source(prog, variant):
 
 
 def compile_one(args):
-    path, rlib, deps = args
+    path, rlib, deps = args[:3]
+    tc = args[3] if len(args) > 3 else None
     # programs about const-ness / construction are compiled down to object code, so that errors which only
     # appear when the generic code is instantiated for the element type (post-monomorphisation) are seen too
     full = "/const_" in path or "/construct_" in path or "replay_const" in path or "replay_construct" in path
-    cmd = ["rustc", "--edition", "2021", "--crate-type", "lib", "--crate-name", "witness", "--emit=obj" if full else "--emit=metadata", "--error-format=json", "-o", path[:-3] + (".o" if full else ".rmeta"),
+    cmd = ["rustc"] + ([f"+{tc}"] if tc else []) + ["--edition", "2021", "--crate-type", "lib", "--crate-name", "witness", "--emit=obj" if full else "--emit=metadata", "--error-format=json", "-o", path[:-3] + (".o" if full else ".rmeta"),
            "--extern", f"circular_buffer={rlib}", "-L", f"dependency={deps}", "--cap-lints", "allow", path]
     p = subprocess.run(cmd, stdout=subprocess.PIPE, stderr=subprocess.PIPE, text=True)
     errs = []
@@ -221,13 +233,13 @@ def reject_class_ok(errs):
     return True
 
 
-def build_rlib():
-    tdir = os.path.join(cc.TARGET, "witness")
-    p = subprocess.run(["cargo", "build", "--release", "--offline", "--lib", "--target-dir", tdir], cwd=cc.REPO, env=cc.ENV,
-                       stdout=subprocess.PIPE, stderr=subprocess.STDOUT, text=True)
+def build_rlib(unstable=False):
+    tdir = os.path.join(cc.TARGET, "witness-unstable" if unstable else "witness")
+    cmd = ["cargo"] + (["+nightly"] if unstable else []) + ["build", "--release", "--offline", "--lib", "--target-dir", tdir] + (["--features", "unstable"] if unstable else [])
+    p = subprocess.run(cmd, cwd=cc.REPO, env=cc.ENV, stdout=subprocess.PIPE, stderr=subprocess.STDOUT, text=True)
     if p.returncode != 0:
         cc.log(p.stdout[-2000:])
-        cc.inconclusive("property=C15: the crate itself does not build")
+        cc.inconclusive("property=C15: the crate itself does not build" + (" with nightly + unstable" if unstable else ""))
     return os.path.join(tdir, "release", "libcircular_buffer.rlib"), os.path.join(tdir, "release", "deps")
 
 
@@ -314,6 +326,31 @@ def run(tier, seed):
             tok, terrs, tpath = res[(p["twin"], "cb")]
             if not tok:
                 problems.append((byname[p["twin"]], tpath, "the must-accept twin of a must-reject program does not compile, so the rejection proves nothing", terrs))
+    # second pass: the same programs against the crate built with nightly + the `unstable` feature (cfg arms that only
+    # exist there can change variance, auto traits or the drop check without touching the default build)
+    unstable_note = None
+    ujobs = []
+    try:
+        urlib, udeps = build_rlib(unstable=True)
+    except SystemExit:
+        raise
+    for p in progs:
+        path = os.path.join(work, f"{p['name']}__cbu.rs")
+        open(path, "w").write(source(p, "cb"))
+        ujobs.append((p, path))
+    with ThreadPoolExecutor(max_workers=16) as ex:
+        uresults = list(ex.map(compile_one, [(path, urlib, udeps, "nightly") for _, path in ujobs]))
+    ures = {p["name"]: r for (p, _), r in zip(ujobs, uresults)}
+    for (p, path), (ok, errs) in zip(ujobs, uresults):
+        want_ok = p["expect"] == "accept"
+        tag = " [crate built with nightly + unstable]"
+        if ok != want_ok:
+            problems.append((p, path, f"the program must be {p['expect']}ed but rustc {'accepts' if ok else 'rejects'} it" + tag, errs))
+        elif not ok and not reject_class_ok(errs):
+            problems.append((p, path, "the program is rejected, but not for a borrow / lifetime / trait-bound reason" + tag, errs))
+        elif not ok and p["twin"] and not ures[p["twin"]][0]:
+            problems.append((byname[p["twin"]], path, "the must-accept twin of a must-reject program does not compile" + tag, ures[p["twin"]][1]))
+    jobs = jobs + [(p["name"], "cb-unstable", path) for p, path in ujobs]
     wall = time.time() - t0
     if generator_errors:
         for g in generator_errors[:10]:
@@ -329,7 +366,7 @@ def run(tier, seed):
         "evaluations": len(jobs),
         "distinct_nontrivial": len(nontrivial),
         "rule": "client programs from the grammar subject x contract x element type, enumerated completely; each compiled against the rlib of the current tree and against "
-                "its reference variants (VecDeque; array/slice/reference for auto traits). non-trivial: must-reject programs and auto-trait programs; distinct by source hash",
+                "its reference variants (VecDeque; array/slice/reference for auto traits), and against the rlib built with nightly + the unstable feature. non-trivial: must-reject programs and auto-trait programs; distinct by source hash",
         "samples": samples,
         "exhaustive": True,
         "programs": len(progs),
@@ -343,7 +380,7 @@ def run(tier, seed):
         p, path, why, errs = problems[0]
         os.makedirs(cc.REPLAYS, exist_ok=True)
         rp = os.path.join(cc.REPLAYS, f"C15-{p['name']}.json")
-        json.dump({"property": prop, "program": p["name"], "contract": p["contract"], "expected": p["expect"], "why": why,
+        json.dump({"property": prop, "program": p["name"], "contract": p["contract"], "expected": p["expect"], "why": why, "unstable_build": "unstable" in why,
                    "diagnostics": errs[:5], "source": source(p, "cb"), "twin": p["twin"]}, open(rp, "w"), indent=1)
         for q, qpath, qwhy, _ in problems[:8]:
             cc.log(f"witness {q['name']} ({q['contract']}): {qwhy}")
@@ -358,12 +395,13 @@ def run(tier, seed):
 
 def replay(path, prop="C15"):
     meta = json.load(open(path))
-    rlib, deps = build_rlib()
+    un = bool(meta.get("unstable_build"))
+    rlib, deps = build_rlib(unstable=un)
     work = os.path.join(cc.OUT, "c15")
     os.makedirs(work, exist_ok=True)
     src = os.path.join(work, "replay_" + meta["program"] + ".rs")
     open(src, "w").write(meta["source"])
-    ok, errs = compile_one((src, rlib, deps))
+    ok, errs = compile_one((src, rlib, deps, "nightly" if un else None))
     cc.log(meta["source"])
     cc.log(f"expected: {meta['expected']}; rustc {'accepts' if ok else 'rejects'} it")
     for e in errs[:5]:
@@ -374,7 +412,7 @@ def replay(path, prop="C15"):
         if tw:
             tsrc = os.path.join(work, "replay_twin.rs")
             open(tsrc, "w").write(source(tw[0], "cb"))
-            tok, _ = compile_one((tsrc, rlib, deps))
+            tok, _ = compile_one((tsrc, rlib, deps, "nightly" if un else None))
             good = good and tok
     if not good:
         cc.log(f"VIOLATION property={prop} replay={path}")
